@@ -905,18 +905,44 @@ Proof.
   rewrite !andb_true_iff, !negb_eqb_true, forallb_Forall, (Forall_iff _ _ _ fn_byte_reflect). tauto.
 Qed.
 
-Lemma domain_alphabet : forall c, in_alphabet (core gen_re_domain) c = true -> domain_byte_b c = true.
+(* a list of byte ranges covered, range by range, by another one *)
+Lemma in_cls_mono : forall c rs rs',
+  forallb (fun p => existsb (fun q => (fst q <=? fst p)%N && (snd p <=? snd q)%N) rs') rs = true ->
+  in_cls c rs = true -> in_cls c rs' = true.
 Proof.
-  intros c H. unfold in_alphabet in H. cbn in H. unfold domain_byte_b.
+  intros c rs rs' Hcov H. unfold in_cls in *. rewrite existsb_exists in *.
+  destruct H as [p [Hin Hp]]. rewrite forallb_forall in Hcov. specialize (Hcov p Hin).
+  rewrite existsb_exists in Hcov. destruct Hcov as [q [Hq Hpq]]. exists q. split; [exact Hq|].
+  rewrite !andb_true_iff, !N.leb_le in *. lia.
+Qed.
+
+Definition domain_ranges : list (N * N) := [(48, 57); (65, 90); (97, 122); (45, 45); (46, 46); (58, 58)]%N.
+Definition repo_ranges : list (N * N) := [(48, 57); (97, 122); (95, 95); (45, 45); (46, 46); (47, 47)]%N.
+
+Lemma domain_ranges_byte : forall c, in_cls c domain_ranges = true -> domain_byte_b c = true.
+Proof.
+  intros c H. unfold in_cls, domain_ranges in H. cbn in H. unfold domain_byte_b.
   rewrite !orb_true_iff, !andb_true_iff, !N.leb_le in H.
   rewrite !orb_true_iff, !andb_true_iff, !N.leb_le, !N.eqb_eq. lia.
 Qed.
 
-Lemma repo_alphabet : forall c, in_alphabet (core gen_re_repository) c = true -> repo_byte_b c = true.
+Lemma repo_ranges_byte : forall c, in_cls c repo_ranges = true -> repo_byte_b c = true.
 Proof.
-  intros c H. unfold in_alphabet in H. cbn in H. unfold repo_byte_b.
+  intros c H. unfold in_cls, repo_ranges in H. cbn in H. unfold repo_byte_b.
   rewrite !orb_true_iff, !andb_true_iff, !N.leb_le in H.
   rewrite !orb_true_iff, !andb_true_iff, !N.leb_le, !N.eqb_eq. lia.
+Qed.
+
+Lemma domain_alphabet : forall c, in_alphabet (core gen_re_domain) c = true -> domain_byte_b c = true.
+Proof.
+  intros c H. apply domain_ranges_byte. unfold in_alphabet in H.
+  eapply in_cls_mono; [|exact H]. vm_compute. reflexivity.
+Qed.
+
+Lemma repo_alphabet : forall c, in_alphabet (core gen_re_repository) c = true -> repo_byte_b c = true.
+Proof.
+  intros c H. apply repo_ranges_byte. unfold in_alphabet in H.
+  eapply in_cls_mono; [|exact H]. vm_compute. reflexivity.
 Qed.
 
 Lemma store_ok_safe : forall st, store_ok_b st = true -> store_safe_b st = true.
